@@ -908,3 +908,350 @@ Section ReadProofs.
     - rewrite HF. apply read_all_trunc with (X := X); auto. nia.
   Qed.
 End ReadProofs.
+
+(* ================================================================ writing *)
+Definition rc_run (k : kind) : Z := match k with KGz => Z_OK | _ => BZ_RUN_OK end.
+Definition finish_again_rc (k : kind) (rc : Z) : Prop :=
+  match k with KGz => rc = Z_OK \/ rc = Z_BUF_ERROR | _ => rc = BZ_FINISH_OK end.
+
+Lemma run_ok_rc_run k : run_ok k (rc_run k) = true.
+Proof. destruct k; reflexivity. Qed.
+Lemma finish_step_end k : k <> KXz -> finish_step k (rc_end k) = FDone.
+Proof. destruct k; try reflexivity. congruence. Qed.
+Lemma finish_step_again k rc : finish_again_rc k rc -> finish_step k rc = FAgain.
+Proof. destruct k; simpl; intros H; try (subst rc; reflexivity). destruct H; subst rc; reflexivity. Qed.
+Lemma min_output_pos k : 0 < min_output k.
+Proof. destruct k; vm_compute; reflexivity. Qed.
+Lemma min_output_le_buf k : min_output k <= buf_size k.
+Proof. unfold buf_size. lia. Qed.
+
+Section WriteProofs.
+  Variables world estate : Type.
+  Variable enew : world -> kind -> estate * world.
+  Variable ereset : kind -> estate -> estate.
+  Variable ecall : kind -> estate -> Z -> list Z -> N -> cres estate.
+
+  Variable member : kind -> list Z -> list Z -> Prop.
+  (* [EInv k st ci eo]: since its (re)initialisation the encoder has consumed ci and emitted eo *)
+  Variable EInv : kind -> estate -> list Z -> list Z -> Prop.
+  (* bound on the number of further calls that can produce output without consuming input *)
+  Variable epend : estate -> nat.
+
+  Definition ecall_run_contract : Prop :=
+    forall k st inp cap ci eo, EInv k st ci eo -> 0 < cap -> inp <> [] ->
+      let r := ecall k st (run_flag k) inp cap in
+      c_used r <= len inp /\ len (c_out r) <= cap /\ c_rc r = rc_run k /\
+      EInv k (c_st r) (ci ++ takeN (c_used r) inp) (eo ++ c_out r) /\
+      (c_used r = 0 -> (epend (c_st r) < epend st)%nat).
+
+  Definition ecall_finish_contract : Prop :=
+    forall k st inp cap ci eo, EInv k st ci eo -> 0 < cap ->
+      let r := ecall k st (finish_flag k) inp cap in
+      c_used r <= len inp /\ len (c_out r) <= cap /\
+      ((c_rc r = rc_end k /\ c_used r = len inp /\ member k (eo ++ c_out r) (ci ++ inp)) \/
+       (finish_again_rc k (c_rc r) /\
+        EInv k (c_st r) (ci ++ takeN (c_used r) inp) (eo ++ c_out r) /\
+        (c_used r = 0 -> (epend (c_st r) < epend st)%nat))).
+
+  Hypothesis member_magic : forall k m p, member k m p -> starts_with (magic_of k) m = true.
+  Hypothesis enew_inv : forall w k, EInv k (fst (enew w k)) [] [].
+  Hypothesis ereset_inv : forall k st, EInv k (ereset k st) [] [].
+  Hypothesis ecall_run : ecall_run_contract.
+  Hypothesis ecall_finish : ecall_finish_contract.
+
+  Notation wstate := (wstate estate).
+  Notation write_loop := (write_loop estate ecall).
+  Notation flush_loop := (flush_loop estate ecall).
+  Notation ws_write := (ws_write estate ecall).
+  Notation ws_flush := (ws_flush estate ereset ecall).
+  Notation run_ops := (run_ops estate ereset ecall).
+  Notation write_session := (write_session world estate enew ereset ecall).
+
+  (* a sequence of complete members of one codec *)
+  Inductive kstream (k : kind) : list Z -> list Z -> Prop :=
+  | ks_nil : kstream k [] []
+  | ks_cons m p raw pay : member k m p -> kstream k raw pay -> kstream k (m ++ raw) (p ++ pay).
+
+  Lemma kstream_snoc k raw pay m p : kstream k raw pay -> member k m p -> kstream k (raw ++ m) (pay ++ p).
+  Proof.
+    intros H Hm. induction H as [|m0 p0 raw pay Hm0 H IH].
+    - simpl. rewrite <- (app_nil_r m), <- (app_nil_r p). constructor; [exact Hm|constructor].
+    - rewrite <- !app_assoc. constructor; assumption.
+  Qed.
+
+  (* loop invariant: file ++ buffer = finished members ++ what the codec emitted for the open member *)
+  Definition wgood (k : kind) (s : wstate) (don : list Z) (ci eo : list Z) : Prop :=
+    EInv k (w_est _ s) ci eo /\ w_file _ s ++ w_buf _ s = don ++ eo /\ len (w_buf _ s) <= buf_size k.
+
+  Lemma ensure_output_good k s don ci eo :
+    wgood k s don ci eo ->
+    let s1 := ensure_output estate k s in
+    wgood k s1 don ci eo /\ min_output k <= avail_out estate k s1 /\ w_dirty _ s1 = w_dirty _ s.
+  Proof.
+    intros [HE [HF HL]]. unfold ensure_output. cbv zeta.
+    destruct (avail_out estate k s <? min_output k) eqn:E.
+    - unfold wgood, avail_out. simpl. rewrite app_nil_r. rewrite len_nil.
+      pose proof (min_output_le_buf k). repeat split; auto; lia.
+    - apply N.ltb_ge in E. repeat split; auto.
+  Qed.
+
+  Lemma write_loop_nil fuel k s : write_loop fuel k s [] = WOk _ s.
+  Proof. destruct fuel; reflexivity. Qed.
+
+  Lemma write_loop_ok k : forall n e inp s don ci eo,
+    (length inp <= n)%nat -> (epend (w_est _ s) <= e)%nat -> wgood k s don ci eo ->
+    exists f0 s' eo', (forall fuel, (f0 <= fuel)%nat -> write_loop fuel k s inp = WOk _ s') /\
+                      wgood k s' don (ci ++ inp) eo' /\ w_dirty _ s' = w_dirty _ s.
+  Proof.
+    induction n as [|n IHn].
+    - intros e inp s don ci eo Hn He Hg. destruct inp; [|simpl in Hn; lia].
+      exists 0%nat, s, eo. rewrite app_nil_r. split; [intros; apply write_loop_nil|auto].
+    - induction e as [e IHe] using lt_wf_ind; intros inp s don ci eo Hn He Hg.
+      destruct inp as [|b inp].
+      { exists 0%nat, s, eo. rewrite app_nil_r. split; [intros; apply write_loop_nil|auto]. }
+      destruct (ensure_output_good k s don ci eo Hg) as [Hg1 [Hav Hd1]].
+      set (s1 := ensure_output estate k s) in *.
+      pose proof (min_output_pos k) as Hmp.
+      assert (Hcap : 0 < avail_out estate k s1) by lia.
+      destruct Hg1 as [HE1 [HF1 HL1]].
+      pose proof (ecall_run k (w_est _ s1) (b :: inp) (avail_out estate k s1) ci eo HE1 Hcap ltac:(discriminate)) as HC.
+      cbv zeta in HC.
+      remember (ecall k (w_est _ s1) (run_flag k) (b :: inp) (avail_out estate k s1)) as r.
+      destruct HC as [Hu [Ho [Hrc [HE2 Hpend]]]].
+      assert (Hest : w_est _ s1 = w_est _ s) by (unfold s1, ensure_output; destruct (avail_out estate k s <? min_output k); reflexivity).
+      set (s2 := mkw _ (w_file _ s1) (w_buf _ s1 ++ c_out r) (c_st r) (w_dirty _ s1)).
+      assert (Hg2 : wgood k s2 don (ci ++ takeN (c_used r) (b :: inp)) (eo ++ c_out r)).
+      { unfold wgood, s2. simpl. split; [exact HE2|]. split.
+        - rewrite app_assoc, HF1. rewrite <- app_assoc. reflexivity.
+        - rewrite len_app. unfold avail_out in Ho. lia. }
+      assert (Hrec : exists f0 s' eo', (forall fuel, (f0 <= fuel)%nat ->
+                   write_loop fuel k s2 (dropN (c_used r) (b :: inp)) = WOk _ s') /\
+                   wgood k s' don ((ci ++ takeN (c_used r) (b :: inp)) ++ dropN (c_used r) (b :: inp)) eo' /\
+                   w_dirty _ s' = w_dirty _ s2).
+      { destruct (N.eq_dec (c_used r) 0) as [Z0|Z0].
+        - (* nothing consumed: pending output shrank *)
+          pose proof (Hpend Z0) as Hlt. rewrite Hest in Hlt.
+          apply (IHe (epend (c_st r))) with (eo := eo ++ c_out r); auto; try lia.
+          rewrite Z0. rewrite dropN_0. exact Hn.
+        - apply (IHn (epend (c_st r))) with (eo := eo ++ c_out r); auto.
+          pose proof (len_dropN (c_used r) (b :: inp)) as LD. unfold len in LD, Hu. simpl length in *. lia. }
+      destruct Hrec as [f0 [s' [eo' [HW [Hg' Hd']]]]].
+      exists (S f0), s', eo'. split; [|split].
+      + intros fuel Hfu. destruct fuel as [|fuel]; [lia|].
+        cbn [CompressDefs.write_loop]. fold s1. rewrite <- Heqr. rewrite Hrc, run_ok_rc_run.
+        fold s2. apply HW. lia.
+      + rewrite <- app_assoc in Hg'. rewrite takeN_dropN in Hg'. exact Hg'.
+      + rewrite Hd'. unfold s2. simpl. exact Hd1.
+  Qed.
+
+  Lemma takeN_nil {A} n : takeN n (@nil A) = [].
+  Proof. unfold takeN. apply firstn_nil. Qed.
+
+  Lemma flush_loop_ok k : k <> KXz -> forall e s don ci eo,
+    (epend (w_est _ s) <= e)%nat -> wgood k s don ci eo ->
+    exists f0 s' m, (forall fuel, (f0 <= fuel)%nat -> flush_loop fuel k s = WOk _ s') /\
+      member k m ci /\ w_file _ s' ++ w_buf _ s' = don ++ m /\ w_dirty _ s' = w_dirty _ s.
+  Proof.
+    intros Hk. induction e as [e IHe] using lt_wf_ind; intros s don ci eo He Hg.
+    destruct (ensure_output_good k s don ci eo Hg) as [Hg1 [Hav Hd1]].
+    set (s1 := ensure_output estate k s) in *.
+    pose proof (min_output_pos k) as Hmp.
+    assert (Hcap : 0 < avail_out estate k s1) by lia.
+    destruct Hg1 as [HE1 [HF1 HL1]].
+    pose proof (ecall_finish k (w_est _ s1) [] (avail_out estate k s1) ci eo HE1 Hcap) as HC.
+    cbv zeta in HC.
+    remember (ecall k (w_est _ s1) (finish_flag k) [] (avail_out estate k s1)) as r.
+    destruct HC as [Hu [Ho HC]].
+    assert (Hest : w_est _ s1 = w_est _ s) by (unfold s1, ensure_output; destruct (avail_out estate k s <? min_output k); reflexivity).
+    set (s2 := mkw _ (w_file _ s1) (w_buf _ s1 ++ c_out r) (c_st r) (w_dirty _ s1)).
+    assert (HF2 : w_file _ s2 ++ w_buf _ s2 = don ++ eo ++ c_out r).
+    { unfold s2. simpl. rewrite app_assoc, HF1. rewrite <- app_assoc. reflexivity. }
+    destruct HC as [[Hrc [Hused Hmem]]|[Hrc [HE2 Hpend]]].
+    - exists 1%nat, s2, (eo ++ c_out r). split; [|split; [|split]].
+      + intros fuel Hfu. destruct fuel as [|fuel]; [lia|].
+        cbn [CompressDefs.flush_loop]. fold s1. rewrite <- Heqr. rewrite Hrc, (finish_step_end k Hk). reflexivity.
+      + rewrite app_nil_r in Hmem. exact Hmem.
+      + exact HF2.
+      + unfold s2. simpl. exact Hd1.
+    - rewrite len_nil in Hu. assert (Z0 : c_used r = 0) by lia.
+      pose proof (Hpend Z0) as Hlt. rewrite Hest in Hlt.
+      rewrite takeN_nil, app_nil_r in HE2.
+      assert (Hg2 : wgood k s2 don ci (eo ++ c_out r)).
+      { unfold wgood. split; [exact HE2|]. split; [exact HF2|].
+        unfold s2. simpl. rewrite len_app. unfold avail_out in Ho. lia. }
+      destruct (IHe (epend (c_st r)) ltac:(lia) s2 don ci (eo ++ c_out r)) as [f0 [s' [m [HW [Hm [HF' Hd']]]]]]; auto.
+      exists (S f0), s', m. split; [|split; [|split]]; auto.
+      + intros fuel Hfu. destruct fuel as [|fuel]; [lia|].
+        cbn [CompressDefs.flush_loop]. fold s1. rewrite <- Heqr. rewrite (finish_step_again k _ Hrc).
+        fold s2. apply HW. lia.
+      + rewrite Hd'. unfold s2. simpl. exact Hd1.
+  Qed.
+
+  (* invariant between operations: finished members, the open member, and
+     what dirty_ = false guarantees *)
+  Definition wtop (k : kind) (s : wstate) (pd ci : list Z) : Prop :=
+    exists don eo, kstream k don pd /\ wgood k s don ci eo /\
+      (w_dirty _ s = false -> ci = [] /\ eo = [] /\ w_buf _ s = [] /\ don <> []).
+
+  Lemma ws_write_ok k s pd ci d : wtop k s pd ci ->
+    exists f0 s', (forall fuel, (f0 <= fuel)%nat -> ws_write fuel k s d = WOk _ s') /\ wtop k s' pd (ci ++ d).
+  Proof.
+    intros [don [eo [Hks [Hg _]]]].
+    destruct (write_loop_ok k (length d) (epend (w_est _ s)) d s don ci eo) as [f0 [s' [eo' [HW [Hg' Hd']]]]]; auto.
+    exists f0, (mkw _ (w_file _ s') (w_buf _ s') (w_est _ s') true). split.
+    - intros fuel Hfu. unfold CompressDefs.ws_write. rewrite (HW fuel Hfu). reflexivity.
+    - exists don, eo'. split; [exact Hks|]. split; [exact Hg'|]. simpl. discriminate.
+  Qed.
+
+  Lemma ws_flush_ok k s pd ci : k <> KXz -> wtop k s pd ci ->
+    exists f0 s', (forall fuel, (f0 <= fuel)%nat -> ws_flush fuel k s = WOk _ s') /\
+                  wtop k s' (pd ++ ci) [] /\ w_dirty _ s' = false.
+  Proof.
+    intros Hk [don [eo [Hks [Hg Hcl]]]].
+    destruct (w_dirty _ s) eqn:Ed.
+    - destruct (flush_loop_ok k Hk (epend (w_est _ s)) s don ci eo) as [f0 [s2 [m [HW [Hm [HF Hd]]]]]]; auto.
+      exists f0, (mkw _ (w_file _ s2 ++ w_buf _ s2) [] (ereset k (w_est _ s2)) false).
+      split; [|split; [|reflexivity]].
+      + intros fuel Hfu. unfold CompressDefs.ws_flush. rewrite Ed. rewrite (HW fuel Hfu). reflexivity.
+      + exists (don ++ m), []. split; [apply kstream_snoc; assumption|]. split.
+        * unfold wgood. simpl. split; [apply ereset_inv|]. split.
+          -- rewrite !app_nil_r. exact HF.
+          -- rewrite len_nil. lia.
+        * simpl. intros _. repeat split; auto.
+          pose proof (starts_with_nonempty _ _ (member_magic _ _ _ Hm)) as Hne.
+          destruct don; destruct m; simpl; congruence.
+    - destruct (Hcl eq_refl) as [Hci [Heo [Hb Hdn]]]. subst ci.
+      exists 0%nat, s. split; [|split; [|exact Ed]].
+      + intros fuel _. unfold CompressDefs.ws_flush. rewrite Ed. reflexivity.
+      + rewrite app_nil_r. exists don, eo. auto.
+  Qed.
+
+  Lemma run_ops_ok k : k <> KXz -> forall ops s pd ci, wtop k s pd ci ->
+    exists f0 s' pd' ci', (forall fuel, (f0 <= fuel)%nat -> run_ops fuel k s ops = WOk _ s') /\
+      wtop k s' pd' ci' /\ pd' ++ ci' = (pd ++ ci) ++ write_plain ops.
+  Proof.
+    intros Hk. induction ops as [|op ops IH]; intros s pd ci Ht.
+    - exists 0%nat, s, pd, ci. split; [intros; reflexivity|]. split; [exact Ht|].
+      unfold write_plain. simpl. rewrite app_nil_r. reflexivity.
+    - destruct op as [d|].
+      + destruct (ws_write_ok k s pd ci d Ht) as [f1 [s1 [HW1 Ht1]]].
+        destruct (IH s1 pd (ci ++ d) Ht1) as [f2 [s' [pd' [ci' [HW2 [Ht' He]]]]]].
+        exists (Nat.max f1 f2), s', pd', ci'. split; [|split; [exact Ht'|]].
+        * intros fuel Hfu. cbn [CompressDefs.run_ops]. rewrite (HW1 fuel ltac:(lia)). apply HW2. lia.
+        * rewrite He. unfold write_plain. simpl. rewrite !app_assoc. reflexivity.
+      + destruct (ws_flush_ok k s pd ci Hk Ht) as [f1 [s1 [HW1 [Ht1 _]]]].
+        destruct (IH s1 (pd ++ ci) [] Ht1) as [f2 [s' [pd' [ci' [HW2 [Ht' He]]]]]].
+        exists (Nat.max f1 f2), s', pd', ci'. split; [|split; [exact Ht'|]].
+        * intros fuel Hfu. cbn [CompressDefs.run_ops]. rewrite (HW1 fuel ltac:(lia)). apply HW2. lia.
+        * rewrite He. unfold write_plain. simpl. rewrite app_nil_r. reflexivity.
+  Qed.
+
+  (* any sequence of writes and flushes, then destruction: the file is a
+     non-empty sequence of complete members that expands to exactly the bytes written *)
+  Theorem write_then_decode_proof : forall k w ops, k <> KXz ->
+    exists f0 file, (forall fuel, (f0 <= fuel)%nat -> write_session fuel k w ops = FileOk file) /\
+      kstream k file (write_plain ops) /\ file <> [].
+  Proof.
+    intros k w ops Hk.
+    pose proof (enew_inv w k) as HE0.
+    destruct (enew w k) as [est w'] eqn:EN. simpl in HE0.
+    set (s0 := mkw estate [] [] est dirty_initial).
+    assert (Ht0 : wtop k s0 [] []).
+    { exists [], []. split; [constructor|]. split.
+      - unfold wgood, s0. simpl. split; [exact HE0|]. split; [reflexivity|]. rewrite len_nil. lia.
+      - unfold s0. simpl. change dirty_initial with true. discriminate. }
+    destruct (run_ops_ok k Hk ops s0 [] [] Ht0) as [f1 [s1 [pd [ci [HW1 [Ht1 He]]]]]].
+    destruct (ws_flush_ok k s1 pd ci Hk Ht1) as [f2 [s2 [HW2 [[don [eo [Hks [[_ [HF _]] Hcl]]]] Hd2]]]].
+    destruct (Hcl Hd2) as [_ [Heo [Hb Hdn]]]. subst eo. rewrite Hb in HF. rewrite !app_nil_r in HF.
+    exists (Nat.max f1 f2), (w_file _ s2). split; [|split].
+    - intros fuel Hfu. unfold CompressDefs.write_session. rewrite EN. fold s0.
+      rewrite (HW1 fuel ltac:(lia)). rewrite (HW2 fuel ltac:(lia)). reflexivity.
+    - rewrite HF. simpl in He. rewrite <- He. exact Hks.
+    - rewrite HF. exact Hdn.
+  Qed.
+
+  (* nothing written at all: exactly one valid member with empty payload *)
+  Theorem flush_finishes_member_proof : forall k w, k <> KXz ->
+    exists f0 m, (forall fuel, (f0 <= fuel)%nat -> write_session fuel k w [] = FileOk m) /\ member k m [].
+  Proof.
+    intros k w Hk.
+    pose proof (enew_inv w k) as HE0.
+    destruct (enew w k) as [est w'] eqn:EN. simpl in HE0.
+    set (s0 := mkw estate [] [] est dirty_initial).
+    assert (Hg0 : wgood k s0 [] [] []).
+    { unfold wgood, s0. simpl. split; [exact HE0|]. split; [reflexivity|]. rewrite len_nil. lia. }
+    destruct (flush_loop_ok k Hk (epend est) s0 [] [] [] (le_n _) Hg0) as [f0 [s2 [m [HW [Hm [HF Hd]]]]]].
+    exists f0, m. split; [|exact Hm].
+    intros fuel Hfu. unfold CompressDefs.write_session. rewrite EN. fold s0. cbn [CompressDefs.run_ops].
+    unfold CompressDefs.ws_flush. change (w_dirty estate s0) with dirty_initial. change dirty_initial with true.
+    cbv iota. rewrite (HW fuel Hfu). simpl. simpl in HF. rewrite HF. reflexivity.
+  Qed.
+
+  (* ---------------------------------------------------------- GZCompress *)
+  Notation gzc_finish := (gzc_finish estate ecall).
+  Notation gz_compress := (gz_compress world estate enew ecall).
+
+  Lemma gzc_finish_ok : forall n e inp est ci out size,
+    (length inp <= n)%nat -> (epend est <= e)%nat -> EInv KGz est ci out -> len out <= size ->
+    exists f0 res, (forall fuel, (f0 <= fuel)%nat -> gzc_finish fuel est inp out size = FileOk res) /\
+                   member KGz res (ci ++ inp).
+  Proof.
+    induction n as [n IHn] using lt_wf_ind.
+    induction e as [e IHe] using lt_wf_ind; intros inp est ci out size Hn He HE Hs.
+    set (size1 := gzc_ensure out size).
+    assert (Hs1 : len out < size1).
+    { unfold size1, gzc_ensure. destruct (size - len out <? gz_kMinOutput) eqn:E.
+      - assert (0 < gzc_increment) by (vm_compute; reflexivity). lia.
+      - apply N.ltb_ge in E. assert (0 < gz_kMinOutput) by (vm_compute; reflexivity). lia. }
+    set (cap := N.min kSizeMax (size1 - len out)).
+    assert (Hcap : 0 < cap) by (unfold cap; assert (0 < kSizeMax) by (vm_compute; reflexivity); lia).
+    pose proof (ecall_finish KGz est inp cap ci out HE Hcap) as HC. cbv zeta in HC.
+    change (finish_flag KGz) with Z_FINISH in HC.
+    remember (ecall KGz est Z_FINISH inp cap) as r.
+    destruct HC as [Hu [Ho [[Hrc [Hused Hmem]]|[Hrc [HE2 Hpend]]]]].
+    - exists 1%nat, (out ++ c_out r). split; [|exact Hmem].
+      intros fuel Hfu. destruct fuel as [|fuel]; [lia|].
+      cbn [CompressDefs.gzc_finish]. fold size1. fold cap. rewrite <- Heqr. rewrite Hrc.
+      change (finish_step KGz (rc_end KGz)) with FDone. reflexivity.
+    - assert (Hs2 : len (out ++ c_out r) <= size1) by (rewrite len_app; unfold cap in Ho; lia).
+      assert (Hrec : exists f0 res, (forall fuel, (f0 <= fuel)%nat ->
+                 gzc_finish fuel (c_st r) (dropN (c_used r) inp) (out ++ c_out r) size1 = FileOk res) /\
+                 member KGz res ((ci ++ takeN (c_used r) inp) ++ dropN (c_used r) inp)).
+      { destruct (N.eq_dec (c_used r) 0) as [Z0|Z0].
+        - pose proof (Hpend Z0) as Hlt.
+          apply (IHe (epend (c_st r))); auto; try lia.
+          rewrite Z0, dropN_0. exact Hn.
+        - apply (IHn (length (dropN (c_used r) inp))) with (e := epend (c_st r)); auto.
+          pose proof (len_dropN (c_used r) inp) as LD. unfold len in LD, Hu. lia. }
+      destruct Hrec as [f0 [res [HW Hm]]].
+      exists (S f0), res. split.
+      + intros fuel Hfu. destruct fuel as [|fuel]; [lia|].
+        cbn [CompressDefs.gzc_finish]. fold size1. fold cap. rewrite <- Heqr.
+        rewrite (finish_step_again KGz _ Hrc). apply HW. lia.
+      + rewrite <- app_assoc in Hm. rewrite takeN_dropN in Hm. exact Hm.
+  Qed.
+
+  (* one-shot compression of any record yields one complete gzip member for it *)
+  Theorem gzcompress_proof : forall w from,
+    exists f0 out, (forall fuel, (f0 <= fuel)%nat -> gz_compress fuel w from = FileOk out) /\
+                   member KGz out from.
+  Proof.
+    intros w from.
+    pose proof (enew_inv w KGz) as HE0.
+    destruct (enew w KGz) as [est w'] eqn:EN. simpl in HE0.
+    destruct (gzc_finish_ok (length from) (epend est) from est [] [] gzc_initial) as [f0 [res [HW Hm]]]; auto.
+    { rewrite len_nil. lia. }
+    exists f0, res. split; [|exact Hm].
+    intros fuel Hfu. unfold CompressDefs.gz_compress. rewrite EN.
+    assert (Hpre : gzc_pre estate ecall fuel est from [] gzc_initial = Some (Some (est, from, [], gzc_initial))).
+    { destruct fuel; reflexivity. }
+    rewrite Hpre. apply HW. exact Hfu.
+  Qed.
+End WriteProofs.
+
+(* members of one codec are members *)
+Lemma kstream_mstream member k raw pay : kstream member k raw pay -> mstream member raw pay.
+Proof.
+  intros H. induction H as [|m p raw pay Hm H IH]; [constructor|].
+  econstructor; eassumption.
+Qed.
